@@ -43,6 +43,18 @@ CLAIMED = {
              "feasibility filtering is syntactic only, so an infeasible path can cost a false alarm but not a miss. Distinct "
              "parameters are assumed not to alias.",
         design="§4 C06"),
+    "C07": dict(
+        technique="path-enumerated guard intervals of every encoder (relational dominance of each buffer store by a buffer_size fact), window-passing typestate in the composite serializers, sibling agreement between cbor_serialized_size and the encoder tables",
+        text="(1) For every public encoder path, each store to buffer[i] lies on a path whose facts give buffer_size >= i+1, "
+             "the returned constant equals the bytes stored, and 0-returning paths store nothing and exist only for "
+             "too-small buffers; (2) every nested call in the 5 composite serializers gets buffer + w / buffer_size - w "
+             "for the same running total, zero results are propagated before use, memcpy is guarded by remaining >= "
+             "length of the announced length; (3) cbor_serialized_size agrees case by case with the encoder tables "
+             "(leaf constants, header-size partition = shortest-form partition, sums only via the signalling add); "
+             "(4) serialize_alloc uses one SSA value for malloc, serialize and *buffer_size.",
+        note="'serialize returns size(item) when n is large enough and 0 otherwise' follows from (1)-(3) by induction on the "
+             "tree (an argument). Byte-exact output is C03/C10.",
+        design="§4 C07"),
     "C08": dict(
         technique="exhaustive path enumeration of the loop-free decoder (claim_bytes inlined) + comparison of every path outcome with an RFC 8949 reference action table for all 256 initial bytes",
         text="All paths of cbor_stream_decode are enumerated symbolically-by-construction (terms, no solver) and, for each "
